@@ -537,9 +537,9 @@ func runC12(p *Program, r *Report) {
 
 // ---- C13 ----------------------------------------------------------------------------------------------------------
 
-func runC13(p *Program, r *Report) {
+func c13req(p *Program, r *Report, rule string) {
 	if fn := p.Func("handshakeRequest"); fn != nil {
-		p.forAllPaths(r, "C13.req", fn, "well-formed upgrade request", Opts{},
+		p.forAllPaths(r, rule, fn, "well-formed upgrade request", Opts{},
 			"on every path to HTTPClient.Do: method GET; req.Header = opts.HTTPHeader.Clone() first, then Set Connection: Upgrade, Upgrade: websocket, Sec-WebSocket-Version: 13, Sec-WebSocket-Key: <key parameter>; Host override iff non-empty; Sec-WebSocket-Protocol = Join(Subprotocols, \",\") iff non-empty; Sec-WebSocket-Extensions = copts.String() iff copts != nil",
 			func(pa *Path) (bool, string) {
 				do := eventIndex(pa, 0, func(e *Event) bool { return isCall(e, "(*http.Client).Do") })
@@ -602,6 +602,10 @@ func runC13(p *Program, r *Report) {
 				return true, ""
 			})
 	}
+}
+
+func runC13(p *Program, r *Report) {
+	c13req(p, r, "C13.req")
 	if fn := p.Func("secWebSocketKey"); fn != nil {
 		p.forAllPaths(r, "C13.key", fn, "16 random bytes, base64", Opts{},
 			"secWebSocketKey reads exactly 16 bytes with io.ReadFull from the injected reader or crypto/rand.Reader and returns their StdEncoding base64; a read error yields no key", func(pa *Path) (bool, string) {
@@ -775,6 +779,7 @@ func runC14(p *Program, r *Report) {
 	c14sideUse(p, r, "C14.side.use")
 	c14use(p, r, "C14.use")
 	c14parse(p, r, "C14.parse")
+	c13req(p, r, "C14.offer")
 	cTokens(p, r, "C14.tokens")
 	// C14.same: server side in accept (C11.buf/C11.resp), client side in dial (C13.gate)
 	c11gate(p, r, "C14.same.server")
